@@ -183,6 +183,35 @@ print('OK' if ok else 'WRONG')
     return r.returncode != 0 or 'OK' not in r.stdout
 
 
+def S_C09e():
+    """An image built around a memory map of a file and saved onto that file with a narrower dtype: the image must
+    still hold its data afterwards.  Run in a child; a crash (SIGBUS) or wrong values = present."""
+    import subprocess
+    code = r'''
+import numpy as np, nibabel as nib, sys, os, tempfile, warnings
+warnings.simplefilter('ignore')
+d = tempfile.mkdtemp()
+ok = True
+for big in (False, True):
+    for how in ('fdata', 'asanyarray', 'asarray'):
+        p = os.path.join(d, 'e_%s_%d.nii' % (how, big))
+        a = (np.arange(4096 if big else 24) % 97 + 1.).reshape((16, 16, 16) if big else (2, 3, 4))
+        nib.save(nib.Nifti1Image(a, np.eye(4)), p)
+        img = nib.load(p)
+        arr = {'fdata': img.get_fdata, 'asanyarray': lambda: np.asanyarray(img.dataobj),
+               'asarray': lambda: np.asarray(img.dataobj)}[how]()
+        new = nib.Nifti1Image(arr, img.affine, img.header)
+        new.set_data_dtype(np.float32)
+        nib.save(new, p)
+        ok = ok and np.array_equal(np.asarray(nib.load(p).dataobj), a) and np.array_equal(np.asanyarray(new.dataobj), a) \
+            and np.array_equal(new.get_fdata(), a)
+print('OK' if ok else 'WRONG')
+'''
+    env = dict(os.environ)
+    r = subprocess.run([sys.executable, '-c', code], capture_output=True, text=True, env=env, timeout=120)
+    return r.returncode != 0 or 'OK' not in r.stdout
+
+
 def S_C09c():
     """Own-file save with a dtype change, or re-save of a scaled file: image unusable/wrong afterwards."""
     import tempfile, shutil
